@@ -123,4 +123,120 @@ example : checkDoc exIDoc = .ok () := by rfl
 
 example : escapeQ ['a', '"', 'b'] = ['\'', 'a', '"', 'b', '\''] ∧ escapeQ ['a', '\''] = ['"', 'a', '\'', '"'] := by decide
 
+/-! ### the serialization followed by a line feed (what the command-line tools write) -/
+
+def noWs (l : List CMisc) : Bool := l.all fun m => !isWsMisc m
+
+theorem canonMiscs_noWs : ∀ (ts : List TopItem) (ms : List CMisc), canonMiscs ts = some ms → noWs ms = true
+  | [], ms, h => by simp only [canonMiscs, Option.some.injEq] at h; subst h; rfl
+  | .comment s :: r, ms, h => by
+    simp only [canonMiscs, Option.map_eq_some_iff] at h
+    obtain ⟨a, ha, rfl⟩ := h
+    simp only [noWs, List.all_cons, isWsMisc, Bool.not_false, Bool.true_and]
+    exact canonMiscs_noWs r a ha
+  | .pi t d :: r, ms, h => by
+    simp only [canonMiscs, Option.map_eq_some_iff] at h
+    obtain ⟨a, ha, rfl⟩ := h
+    simp only [noWs, List.all_cons, isWsMisc, Bool.not_false, Bool.true_and]
+    exact canonMiscs_noWs r a ha
+  | .doctype _ :: _, _, h => by simp [canonMiscs] at h
+  | .elem _ :: _, _, h => by simp [canonMiscs] at h
+
+theorem canonTop_noWs : ∀ (ts : List TopItem) (b : List CMisc) (e : CItem) (a : List CMisc), canonTop ts = some (b, e, a) → noWs a = true
+  | [], _, _, _, h => by simp [canonTop] at h
+  | .elem x :: r, b, e, a, h => by
+    simp only [canonTop, Option.map_eq_some_iff, Prod.mk.injEq] at h
+    obtain ⟨a', ha, _, _, rfl⟩ := h
+    exact canonMiscs_noWs r a' ha
+  | .comment s :: r, b, e, a, h => by
+    simp only [canonTop, Option.map_eq_some_iff] at h
+    obtain ⟨⟨b', e', a'⟩, hr, hh⟩ := h
+    simp only [Prod.mk.injEq] at hh
+    obtain ⟨_, _, rfl⟩ := hh
+    exact canonTop_noWs r b' e' a' hr
+  | .pi t d :: r, b, e, a, h => by
+    simp only [canonTop, Option.map_eq_some_iff] at h
+    obtain ⟨⟨b', e', a'⟩, hr, hh⟩ := h
+    simp only [Prod.mk.injEq] at hh
+    obtain ⟨_, _, rfl⟩ := hh
+    exact canonTop_noWs r b' e' a' hr
+  | .doctype _ :: _, _, _, _, h => by simp [canonTop] at h
+
+theorem canonTopD_noWs : ∀ (ts : List TopItem) (b : List CMisc) (dt : Option (CDoctype × List CMisc)) (e : CItem) (a : List CMisc),
+    canonTopD ts = some (b, dt, e, a) → noWs a = true
+  | [], _, _, _, _, h => by simp [canonTopD] at h
+  | .elem x :: r, b, dt, e, a, h => by
+    simp only [canonTopD, Option.map_eq_some_iff, Prod.mk.injEq] at h
+    obtain ⟨a', ha, _, _, _, rfl⟩ := h
+    exact canonMiscs_noWs r a' ha
+  | .comment s :: r, b, dt, e, a, h => by
+    simp only [canonTopD, Option.map_eq_some_iff] at h
+    obtain ⟨⟨b', dt', e', a'⟩, hr, hh⟩ := h
+    simp only [Prod.mk.injEq] at hh
+    obtain ⟨_, _, _, rfl⟩ := hh
+    exact canonTopD_noWs r b' dt' e' a' hr
+  | .pi t d :: r, b, dt, e, a, h => by
+    simp only [canonTopD, Option.map_eq_some_iff] at h
+    obtain ⟨⟨b', dt', e', a'⟩, hr, hh⟩ := h
+    simp only [Prod.mk.injEq] at hh
+    obtain ⟨_, _, _, rfl⟩ := hh
+    exact canonTopD_noWs r b' dt' e' a' hr
+  | .doctype d :: r, b, dt, e, a, h => by
+    simp only [canonTopD] at h
+    split at h
+    · next cd b2 e2 a2 _ hr =>
+      simp only [Option.some.injEq, Prod.mk.injEq] at h
+      obtain ⟨_, _, _, rfl⟩ := h
+      exact canonTop_noWs r b2 e2 a2 hr
+    · cases h
+
+theorem canonDoc_after_noWs (d : IDoc) (cd : CDoc) (hc : canonDoc d = some cd) : noWs cd.after = true := by
+  unfold canonDoc at hc
+  split at hc
+  · cases hc
+  · next decl _ =>
+    simp only [Option.map_eq_some_iff] at hc
+    obtain ⟨⟨b, dt, e, a⟩, hr, rfl⟩ := hc
+    exact canonTopD_noWs d.kids b dt e a hr
+
+theorem adjWs_snoc_ws : ∀ (l : List CMisc) (w : Str), noWs l = true → adjWs (l ++ [CMisc.ws w]) = false
+  | [], w, _ => by simp [adjWs, isWsMisc]
+  | m :: r, w, h => by
+    simp only [noWs, List.all_cons, Bool.and_eq_true, Bool.not_eq_true'] at h
+    simp only [List.cons_append, adjWs, h.1, Bool.false_and, Bool.false_or]
+    exact adjWs_snoc_ws r w (by simpa [noWs] using h.2)
+
+theorem miscText_append : ∀ (a b : List CMisc), miscText (a ++ b) = miscText a ++ miscText b
+  | [], b => rfl
+  | m :: r, b => by simp only [List.cons_append, miscText, miscText_append r b, List.append_assoc]
+
+/-- the concrete document with one line feed behind everything else -/
+def withNL (cd : CDoc) : CDoc := { cd with after := cd.after ++ [CMisc.ws ['\n']] }
+
+theorem withNL_ok (cd : CDoc) (hok : cd.ok = true) (hn : noWs cd.after = true) : (withNL cd).ok = true := by
+  simp only [CDoc.ok, Bool.and_eq_true, Bool.not_eq_true'] at hok ⊢
+  obtain ⟨⟨⟨⟨⟨⟨⟨h1, h2⟩, h3⟩, h4⟩, h5⟩, h6⟩, h7⟩, h8⟩ := hok
+  refine ⟨⟨⟨⟨⟨⟨⟨h1, h2⟩, h3⟩, h4⟩, h5⟩, ?_⟩, ?_⟩, h8⟩
+  · simp only [withNL, List.all_append, h6, Bool.true_and, List.all_cons, List.all_nil, Bool.and_true]
+    decide
+  · exact adjWs_snoc_ws cd.after ['\n'] hn
+
+theorem withNL_str (cd : CDoc) : (withNL cd).str = cd.str ++ ['\n'] := by
+  simp only [withNL, CDoc.str, miscText_append, miscText, CMisc.str, List.append_nil, List.append_assoc]
+
+theorem withNL_erase (cd : CDoc) : (withNL cd).erase = cd.erase := by
+  simp only [withNL, CDoc.erase, List.filterMap_append, List.filterMap_cons, CMisc.erase, List.filterMap_nil, List.append_nil]
+
+/-- ROUND TRIP OF WHAT THE TOOLS WRITE: the serialization of a printable document followed by a line feed is accepted
+    with nothing left over and denotes the same document -/
+theorem print_newline_roundtrip (d : IDoc) (cd : CDoc) (hc : canonDoc d = some cd) (hok : cd.ok = true)
+    (hf : d.kids.all faithfulTop = true) (hdepth : cd.root.depth ≤ maxDepth_element)
+    (hgroups : doctypeDepth cd.doctype ≤ maxDepth_children) (hchk : checkDoc d = .ok ()) :
+    ∃ f0, ∀ f, f0 ≤ f → parseDocFuel env false f (printDoc d ++ ['\n']) = .ok (d, []) := by
+  obtain ⟨h1, h2⟩ := Lex.canonDoc_spec d cd hc hf hok
+  have hn := canonDoc_after_noWs d cd hc
+  have := C01.rendering_parses (withNL cd) (withNL_ok cd hok hn) hdepth hgroups (by rw [withNL_erase, h2]; exact hchk)
+  rw [withNL_str, withNL_erase, ← h1, h2] at this
+  exact this
+
 end XmlRs.C04
